@@ -101,6 +101,11 @@ def run(pid, tier, ev=None, vd=None, finish=True):
             if order:
                 job["order"] = order
             jobs.append(job)
+        # a fetch while the file is replaced by the EMPTY version and then by another one (a commit that empties the live file in
+        # place instead of renaming over it cuts the fetch short)
+        for k in range(12 if tier == "quick" else 300):
+            jobs.append({"prog": "getempty", "program": {1: [("get", "f"), ("get", "f")], 2: [("put", "f", "c2", "c0"), ("put", "f", "c0", "c1")]},
+                         "init": {"f": "c2"}, "policy": "random", "seed": vlib.seed() * 29 + k, "src": "search", "allow_empty": True, "reads_visible": True})
         # the hub's own lock file addressed by a client as an ordinary path (it starts empty = "c0"): whatever the hub
         # answers, the compare-and-swap of the OTHER clients must stay linearizable (schedule as in lock_identity)
         jobs.append({"prog": "lockfile", "program": {1: [("put", ".copia/commit.lock", "c0", "c2")], 2: [("put", "f", "c1", "c2")], 3: [("put", "f", "c1", "c3")]},
